@@ -106,9 +106,19 @@ def walk_inputs(S, symbolic, inp=None):
     return vals
 
 
-def install_walk(m, S, v):
+GIVEN_FLAGS = [('Tsurf', 'Tsurf'), ('Tmax', 'Tmax'), ('depth', 'depth'), ('gradient', 'gradient'), ('layerthickness', 'layerthickness')]
+
+
+def install_walk(m, S, v, given=None):
+    """given: None (leave the flags as the base model has them), 'symbolic' (whether each input of the walk was GIVEN in the input file is the
+    solver's choice: the walk is stated on the values the run holds, whether they were typed in or are the defaults), or a dict of booleans."""
     r = m.reserv
     r.Tsurf.value, r.Tmax.value, r.depth.value = v['Tsurf'], v['Tmax'], v['depth']
+    if given is not None:
+        for key, attr in GIVEN_FLAGS:
+            prm = getattr(r, attr)
+            flag = core.symbool(f'{key}.given') if given == 'symbolic' else bool(given.get(f'{key}.given', True))
+            prm.Provided = flag
     g = list(r.gradient.value)
     th = list(r.layerthickness.value)
     for i in range(S):
@@ -179,9 +189,9 @@ def run_walk(unit):
         gx.unwrapped(R.Reservoir.Calculate)(m0.reserv, m0)
     log = harness.UnitLog(cfg)
 
-    def drive(v, symbolic):
+    def drive(v, symbolic, given=None):
         m = base_model(4, S, 2, 2)
-        install_walk(m, S, v)
+        install_walk(m, S, v, given)
         if symbolic:
             with shim.shadow(*RES_SHADOWS):
                 gx.unwrapped(R.Reservoir.Calculate)(m.reserv, m)
@@ -191,13 +201,13 @@ def run_walk(unit):
 
     def fn():
         v = walk_inputs(S, True)
-        m = drive(v, True)
+        m = drive(v, True, 'symbolic')
         return v, walk_obligations(S, v, m)
 
     def concrete(inp, only=None):
         v = walk_inputs(S, False, inp)
         try:
-            m = drive(v, False)
+            m = drive(v, False, {k: bool(x) for k, x in inp.items() if k.endswith('.given')})
         except Exception as e:
             return False, {'raised': repr(e)[:200]}
         obs = walk_obligations(S, v, m)
@@ -205,6 +215,7 @@ def run_walk(unit):
         return bool(bad), {'failed': bad, 'Trock': float(m.reserv.Trock.value), 'depth_final': float(m.reserv.depth.value),
                            'reference': float(walk_reference(S, v, m.reserv.depth.value))}
     zv = {n: z3.Real(n) for n in walk_inputs_names(S)}
+    zv.update({f'{key}.given': z3.Bool(f'{key}.given') for key, _ in GIVEN_FLAGS})
     n = 0
     for pr in core.explore(fn, max_paths=5000):
         log.path(pr)
